@@ -188,6 +188,7 @@ int run_struct(const Args& a) {
                 if (s != status::OK) { rep.violation("struct:put-status", "put failed", JObj().str("got", vf::st(s)).done()); }
                 st[i] = id;
                 progress.fetch_add(1, std::memory_order_relaxed);
+                g_progress.fetch_add(1, std::memory_order_relaxed);
             };
             auto rm_key = [&](std::size_t i) {
                 ctl::g_tpub[tid].in_api.store(1);
